@@ -449,6 +449,10 @@ func init() {
 					return r
 				}
 				memo[fn] = ""
+				if _, opaque := p.opaqueAt(p.pos(fn.Pos())); opaque {
+					// its own obligation is withdrawn (opaque.go); callers that delegate to it are not blamed for it
+					return ""
+				}
 				var ctxParam *ssa.Parameter
 				for _, prm := range fn.Params {
 					if isNamed(prm.Type(), "context", "Context") {
